@@ -144,6 +144,15 @@ namespace {
          });
       }
 
+      // "is the name taken?", asked just before a declaration is entered
+      Value pre_query(int s, int n, int t)
+      {
+         auto& sc = scope(s);
+         auto a = Value::array();
+         a.push(guarded([&] { return Value{sc[*names.at(n)].is_valid() ? 1 : 0}; })).push(select_one(sc, n, t));
+         return a;
+      }
+
       // full observation of a scope, in the shape of Obs(ds, s) of the specification
       Value obs(int s, bool full)
       {
@@ -241,6 +250,7 @@ namespace {
             int s = static_cast<int>(ev.at("s").as_int()), n = static_cast<int>(ev.at("n").as_int()),
                 t = static_cast<int>(ev.at("t").as_int());
             auto kind = ev.at("k").as_str();
+            auto pre = st.pre_query(s, n, t);
             int r = st.declare(s, kind, n, t);
             auto got = st.obs(s, true);
             // class: kind x (first with this name-type / redeclaration / same name other type)
@@ -254,6 +264,7 @@ namespace {
             classes.insert(cls);
             std::string why;
             if (r != ev.at("r").as_int()) why = "identity";
+            else if (not vj::equal(pre, h.at("pre"))) why = "lookup";
             else if (not vj::equal(got, h.at("o"))) why = first_difference(h.at("o"), got);
             if (not why.empty()) {
                ++failed;
@@ -318,8 +329,9 @@ namespace {
             else { kind = "base"; n = nn + t; }
             if (s >= 3) { if (used[s].count(n)) continue; used[s].insert(n); }
             auto ev = Value::object();
+            auto pre = st.pre_query(s, n, t);
             int r = st.declare(s, kind, n, t);
-            ev.set("k", kind).set("s", s).set("n", n).set("t", t).set("r", r).set("o", st.obs(s, false));
+            ev.set("k", kind).set("s", s).set("n", n).set("t", t).set("r", r).set("pre", pre).set("o", st.obs(s, false));
             // sampled queries: lookups and selections, hits and misses
             auto qs = Value::array();
             for (int j = 0; j < 6; ++j) {
